@@ -81,6 +81,26 @@ def mutants_of(stmt: ast.stmt, whole_function: bool) -> List[Tuple[str, Callable
                         del x.keywords[i]
                         return True
                     out.append((f"drop keyword {kw.arg}= of {nm}()", lambda t, k=k, m=m3: _apply(t, k, m)))
+        if isinstance(n, ast.Call):
+            # the CRS a result is tagged with: keyword crs= or an argument that reads .crs
+            for i, kw in enumerate(n.keywords):
+                if kw.arg == "crs" and not (isinstance(kw.value, ast.Constant) and kw.value.value is None):
+                    def m3c(x, i=i):
+                        x.keywords[i].value = ast.Constant(value=None)
+                        return True
+                    out.append(("crs= := None", lambda t, k=k, m=m3c: _apply(t, k, m)))
+            for i, a in enumerate(n.args):
+                if isinstance(a, ast.Attribute) and a.attr in ("crs", "_crs"):
+                    def m3d(x, i=i):
+                        x.args[i] = ast.copy_location(ast.Constant(value=None), x.args[i])
+                        return True
+                    out.append((f"argument {i} (.crs) := None", lambda t, k=k, m=m3d: _apply(t, k, m)))
+        if isinstance(n, ast.BoolOp) and len(n.values) >= 2 and ast.dump(n.values[0]) != ast.dump(n.values[1]):
+            def m8d(x):
+                import copy as _copy
+                x.values[1] = _copy.deepcopy(x.values[0])
+                return True
+            out.append(("second operand := copy of the first", lambda t, k=k, m=m8d: _apply(t, k, m)))
         if isinstance(n, ast.Attribute) and n.attr in SWAP_ATTR:
             def m4(x, new=SWAP_ATTR[n.attr]):
                 x.attr = new
